@@ -24,6 +24,9 @@ InR(e) == IF e.nm = 2 THEN <<e.r1, e.r2>> ELSE <<e.r1>>
 InQ(e) == IF e.nm = 2 THEN <<e.q1, e.q2>> ELSE <<e.q1>>
 InQuantifier(e) == \A k \in DOMAIN InQ(e) : \A i \in DOMAIN InQ(e)[k] : InQ(e)[k][i] \in 33 .. 84   \* qualities 0..51
 
+(* the data type the strategy reports on the first returned record (recorded verbatim in out[1].meta.dt) *)
+ReportedDt(e) == IF Len(e.out) > 0 /\ "meta" \in DOMAIN e.out[1] /\ "dt" \in DOMAIN e.out[1].meta THEN e.out[1].meta.dt ELSE ""
+
 DemuxVerdict(e) ==
     IF e.s \notin Strategies THEN "ok"                     \* no layout pinned for it: reported as a note
     \* a crash (anything but NonMultiplexable) on a pair with a record count the table lists is not a refusal: the strategy
@@ -35,11 +38,11 @@ DemuxVerdict(e) ==
     ELSE IF ~ e.acc THEN "ok"                              \* refused: outside the statement
     ELSE IF ~ InQuantifier(e) THEN "ok"
     ELSE IF e.shape # "" THEN "result_is_not_a_list_of_records"
-    ELSE LET v == StrategyVerdict(e.s, InR(e), InQ(e), e.out, Enc, Comp, IsT) IN
+    ELSE LET v == StrategyVerdict(e.s, InR(e), InQ(e), e.out, ReportedDt(e), Enc, Comp, IsT) IN
          IF v # "ok" THEN v
          \* the other end of the hand-over: what TaggedRecord.asFastq() writes for the returned records (header parsed back)
          ELSE IF "fq" \in DOMAIN e
-              THEN LET w == StrategyVerdict(e.s, InR(e), InQ(e), e.fq, Enc, Comp, IsT) IN IF w = "ok" THEN "ok" ELSE "asFastq:" \o w
+              THEN LET w == StrategyVerdict(e.s, InR(e), InQ(e), e.fq, ReportedDt(e), Enc, Comp, IsT) IN IF w = "ok" THEN "ok" ELSE "asFastq:" \o w
               ELSE "ok"
 
 Verdict(e) == CASE e.ev = "demux" -> DemuxVerdict(e)
